@@ -899,7 +899,7 @@ def _crash():
             heavy = dq and op in ("push", "change", "change_by", "remove", "pop_hi_if", "push_inc")
             for n, d in ((1, 1), (2, 1), (3, 1), (3, 2), (4, 1)):
                 t = tq(n, 2 if heavy else 3, 3 if dq else 4)
-                if d == 2 or n == 1:
+                if d == 2 or n == 1 or (heavy and op not in ("push", "change")):
                     t = THOROUGH if t else None
                 if t is None:
                     continue
